@@ -270,6 +270,23 @@ CHECKS = {
         note="Default schedule; the device and the LLCP peer are scripted; "
              "where docstring and code disagree on something the property "
              "does not mention both are accepted."),
+    'C16': dict(
+        category='fault_enumeration', design='2/C16',
+        technique="exhaustive fault-burst enumeration (position x kind x "
+                  "burst length x loss variant) over every tag operation on "
+                  "stateful tag simulators",
+        text="For every public operation of every tag class (T1 static/"
+             "dynamic/Topaz, T2 generic/UL-C/NTAG, T3 generic/FeliCa "
+             "Lite/Lite-S/Standard, T4 A/B) a fault-free run fixes the command "
+             "sequence; then at every position a burst of 1..3 (thorough 1..4) "
+             "timeouts, transmission or protocol errors is injected, as lost "
+             "command and as lost response; bursts within the retry budget "
+             "must be absorbed with the same result and memory, larger ones "
+             "must end in a TagCommandError with the matching errno or the "
+             "documented None/False, never a raw error, and answered commands "
+             "must not be re-sent.",
+        note="Retry budgets are read from the code and listed in the "
+             "evidence; one burst per run; ISO-DEP WTX defects are C12's."),
 }
 
 NOT_YET = "check not built yet in this round (see DESIGN.md section 2 for the planned design)"
